@@ -4,13 +4,14 @@
    three mini-block codecs), the general LZ4/ZSTD wrapper, per-value general compression and the FSST
    wrapper (opaque compressors as hypotheses), dictionary encoding.
    NOT proved yet (model + differential correspondence + round-trip oracle only, see checks.d/C26.json):
-   bit-packing inline/out-of-line layer, binary mini-block chunking, packed structs, variable block layout. *)
+   bit-packing inline/out-of-line layer, binary chunk CONTENTS (the chunk table is proved), packed structs,
+   variable block layout. *)
 From LanceV Require Import Common.Base Codec.Model_Bytes
   Codec.Model_BytePack Codec.Proofs_BytePack
   Codec.Model_Bss Codec.Proofs_Bss
   Codec.Model_Rle Codec.Proofs_Rle Codec.Proofs_RlePage
   Codec.Model_Value Codec.Proofs_Value
-  Codec.Model_Binary Codec.Model_Packed Codec.Model_General Codec.Proofs_General
+  Codec.Model_Binary Codec.Proofs_Binary Codec.Model_Packed Codec.Model_General Codec.Proofs_General
   Codec.Model_Bitpack.
 Local Open Scope N_scope.
 
@@ -123,6 +124,25 @@ Theorem C26_dict_roundtrip : forall vals : list (list N),
   dict_decode (fst (dict_encode vals)) (snd (dict_encode vals)) = vals.
 Proof. exact dict_roundtrip. Qed.
 Print Assumptions C26_dict_roundtrip.
+
+(* ---- binary mini-block chunker (binary.rs chunk_offsets / search_next_offset_idx, as repaired) ----
+   For both offset widths and EVERY block of n >= 1 values with non-decreasing offsets whose values
+   all fit (<= 2036 bytes each; mini-block is selected by default only below 256 bytes): the
+   chunker terminates, the chunk table covers the values exactly once within the limits
+   (1..4096 values, non-last chunks a power of two >= 2, <= MAX_MINIBLOCK_BYTES bytes), and the
+   recorded u16 sizes add up to the single output buffer (no truncation).
+   partial: the byte-level decode round trip of the chunk contents is not proved (correspondence
+   + oracle only). *)
+Theorem C26_binary_chunk_limits_partial : forall (bw : N) (offsets data : list N),
+  (bw = 4 \/ bw = 8) -> offsets_ok offsets BINARY_FIT ->
+  2 <= nlen offsets -> nlen offsets < two64 ->
+  off_at offsets (nlen offsets - 1) <= nlen data ->
+  exists buf chunks,
+    binary_encode bw offsets data = Some ([buf], chunks) /\
+    chunks_ok chunks (nlen offsets - 1) = true /\
+    sum_N (map (fun c : chunk => sum_N (fst c)) chunks) = nlen buf.
+Proof. exact binary_chunk_limits. Qed.
+Print Assumptions C26_binary_chunk_limits_partial.
 
 (* ---- regression of the binary chunker defect repaired in repo commit b9f1526 ----
    256 one-byte values followed by 256 values of 255 bytes (every value shorter than 256 bytes).
